@@ -165,6 +165,11 @@ func NewProofG1(commitment *ml.G1, responses []*ml.Zr) *ProofG1 {
 
 // Verify verifies the ProofG1.
 func (pg1 *ProofG1) Verify(bases []*ml.G1, commitment *ml.G1, challenge *ml.Zr) error {
+	// one response per base: a proof that carries fewer would be indexed out of range below
+	if len(pg1.responses) != len(bases) {
+		return errors.New("responses do not match the bases")
+	}
+
 	contribution := pg1.getChallengeContribution(bases, commitment, challenge)
 	contribution.Sub(pg1.commitment)
 
@@ -221,8 +226,17 @@ func ParseSignatureProof(sigProofBytes []byte) (*PoKOfSignatureProof, error) {
 		offset += g1CompressedSize
 	}
 
+	if len(sigProofBytes) < offset+4 { //nolint:gomnd
+		return nil, errors.New("invalid size of signature proof")
+	}
+
 	proof1BytesLen := int(uint32FromBytes(sigProofBytes[offset : offset+4]))
 	offset += 4
+
+	// the length comes from the wire: it must lie inside what was received
+	if proof1BytesLen < 0 || proof1BytesLen > len(sigProofBytes)-offset {
+		return nil, errors.New("invalid size of signature proof")
+	}
 
 	proofVc1, err := ParseProofG1(sigProofBytes[offset : offset+proof1BytesLen])
 	if err != nil {
@@ -262,7 +276,8 @@ func ParseProofG1(bytes []byte) (*ProofG1, error) {
 	length := int(uint32FromBytes(bytes[offset : offset+4]))
 	offset += 4
 
-	if len(bytes) < g1CompressedSize+4+length*frCompressedSize {
+	// compared without multiplying the untrusted count (overflow), and before anything is allocated for it
+	if length < 0 || length > (len(bytes)-g1CompressedSize-4)/frCompressedSize {
 		return nil, errors.New("invalid size of G1 signature proof")
 	}
 
